@@ -272,7 +272,7 @@ def run(ctx):
 OPS_OF = {
     "model": {"mname", "mpath", "vpartM"},
     "names": {"nname", "vpartN"},
-    "blob": {"digest", "getfile", "n2p", "mfpath", "snd", "resolve", "fold", "hist"},
-    "server": {"mp", "blobs", "clean", "join"},
+    "blob": {"digest", "getfile", "n2p", "mfpath", "snd", "resolve", "fold", "hist", "p2n"},
+    "server": {"mp", "blobs", "clean", "join", "canon", "enum"},
     "client": {"ext", "split"},
 }
